@@ -13,6 +13,36 @@ TEXT = {
    text='Every Eq/Ord/ContraMap/From/Monoid entry point is executed on all pairs (and all triples for transitivity) of a pool of boundary and seed-random ints and strings; the oracle is the Go operator or the wrapped function itself, and base instances log their arguments so argument order is observed. Exploration of the input space, exhaustive over the pool.',
    note='Trusts Go\'s ==, < on int/string. Pool size bounds what is seen (40 values quick, 90 thorough per sort).',
    ref='DESIGN.md §6 C17'),
+ 'C14': dict(
+   technique='reference-model monitor: real combinators drained by the documented loop vs strict list interpreter of the same expression tree; per-node callback-argument log; logical step budget for runaway loops',
+   text='All expression trees to depth 3 over a leaf/function alphabet plus seed-random trees to depth 7 are built from fresh leaves, drained and run through ForEach with a visitor failing at several positions; result, visited prefix, returned error, callback arguments and source slices are compared with a list interpreter. Exploration, exhaustive on the small bound.',
+   note='Trusts the slice interpreter in harness/itermon. Leaves and function families are those of the grammar; trees larger than 200 nodes are skipped.',
+   ref='DESIGN.md §6 C14'),
+ 'C15': dict(
+   technique='reference-model monitor over two sorts (pair.Seq / seq.Seq): (Key(),Value()) lists vs strict list interpreter; per-node callback-argument log with keys disjoint from values',
+   text='As C14 over pair.From/TakeWhile/DropWhile/Filter/Map/Plus/Join/ToSeq/FromSeq mixed with plain seq combinators: all trees to depth 3 (quick) / 4 (thorough, smaller alphabet) plus random deeper trees; collected (key,value) pairs, ForEach prefixes and every (key,value) handed to a callback are compared with list semantics.',
+   note='Trusts the list interpreter; keys >= 1000 and values < 997 so any key/value swap is visible.',
+   ref='DESIGN.md §6 C15'),
+ 'C16': dict(
+   technique='reference-model monitor: callback trace of Morphism.Apply vs tree+open-context-stack model, independent bracket checker, visitor failing at every callback position',
+   text='All well-typed programs to length 5 (quick) / 7 (thorough) over a reduced target alphabet and random programs to length 30 over 10 element types are executed through explicit generic instantiations; the full callback trace (kind, depth, type names, tokens, child counts) must equal the model trace, be well bracketed, and stop exactly at the failing callback returning its error. Exploration, exhaustive on the small bound.',
+   note='Trusts the reference model in harness/ductmon and duct.TypeOf for the expected names (as the property states). Deferred flags of AstSeq are not compared (not part of the statement).',
+   ref='DESIGN.md §6 C16'),
+ 'C18': dict(
+   technique='reference-model monitor (Go map) + structural invariant checker over the public String() dump after every operation; node-height PRNG seeded through the synctest virtual clock',
+   text='All histories of Put/Get/Remove over 3 keys to length 5 (quick) / 6 (thorough) under several node-height seeds, and random histories up to 5000 operations over up to 64 keys, for int, reversed, modular and string orders; every result is compared with a map and every dump is checked for sorted level-0 keys equal to the live key set and for each level being the sub-chain of nodes of that height.',
+   note='Built from a staged copy of internal/maplike. Values are checked through Get audits (values are not in the dump).',
+   ref='DESIGN.md §6 C18'),
+ 'C19': dict(
+   technique='lock-step differential monitor: list and slice implementations vs immutable-slice model, re-extracting every sequence ever created after every step (persistence)',
+   text='All scripts of New/Cons/Tail to length 5 (quick) / 7 (thorough) over a growing pool of live sequences and random scripts to 300 steps; after each step every sequence of both implementations is extracted with IsEmpty/Head/Tail and Length/IsEmpty/Head/Fold (non-commutative, non-zero empty) are compared with the model.',
+   note='Built from a staged copy of internal/seq. Head/Tail never applied to empty sequences.',
+   ref='DESIGN.md §6 C19'),
+ 'C20': dict(
+   technique='trace-function monitor: result string is the application order; per-function call counters and argument logs; affine non-commuting family as second witness',
+   text='For N = 2..20 the staged PipeN is applied to trace functions (same type and one distinct type per stage) and to affine maps with seed-chosen coefficients for hundreds of arguments; result, per-function call count (exactly 1) and the argument each function received are compared with the left-to-right composition.',
+   note='Built from a staged copy of internal/pipe (package pure).',
+   ref='DESIGN.md §6 C20'),
 }
 
 def main():
@@ -51,6 +81,11 @@ def main():
 
 ENGINE_TEXT = {
  'puremon': 'law monitors with Go operators as oracle',
+ 'itermon': 'expression-tree interpreter vs real iterator combinators',
+ 'ductmon': 'typed-program interpreter (generated instantiation table) vs AST reference model',
+ 'skipmon': 'skip list vs map model + dump invariants, inside synctest bubbles',
+ 'seqmon': 'persistent sequence ADT, two implementations in lock step',
+ 'ipipemon': 'PipeN trace-function monitor',
 }
 
 if __name__ == '__main__':
